@@ -8,6 +8,8 @@ PROP = dict(
         # non-vacuity: the model as the code was before the D10/D22 fixes (typed-nil reflect panics, nil payload
         # returns before the closer is installed) must violate the property
         dict(module="MCCodecs", cfg="MCCodecs_asbuilt.cfg", expect_violation="PropertyHolds", timeout=300),
+        # non-vacuity of Part A2: a buffer shared between successive Consume calls must violate "never alias"
+        dict(module="MCCodecs", cfg="MCCodecs_mut_pooled.cfg", expect_violation="PropertyHolds", timeout=300),
     ],
     gen=dict(module="GenCodecs", cfg=dict(quick="GenCodecs_quick.cfg", thorough="GenCodecs_thorough.cfg"),
              workers=1, timeout=1500),
@@ -16,7 +18,8 @@ PROP = dict(
                "scripted writers (accept k bytes, then fail), for every destination / source kind (interfaces, *string, *[]byte, "
                "named types, *interface{}, non-pointers, typed-nil, nil, unsupported) x closing option, and states C15 declaratively "
                "(bytes stored / written are exactly the bytes read / the source bytes; a read, write or (un)marshal error is never a "
-               "success; the stream is closed iff requested and closable; a closable source payload is always closed; unsupported, nil "
+               "success; successive Consume calls never touch what an earlier call stored, nor does the caller changing one stored value (history "
+               "state machine, 'never alias'); the stream is closed iff requested and closable; a closable source payload is always closed; unsupported, nil "
                "and typed-nil values yield an error, never a panic). TLC checks model |= property for every configuration (14 k quick, "
                "195 k thorough), exports every configuration plus the value grammar of the JSON / XML / YAML / text / byte-stream round "
                "trip (x feeding pattern x truncated document x failing writer), and validates the outcome of every real Consume / "
@@ -29,7 +32,9 @@ PROP = dict(
     trace=dict(module="TraceCodecs", cfg="TraceCodecs.cfg"),
     rule="case = one codec call: (consume) reader script x reader kind x ClosesStream x destination kind x pre-population x "
          "writer limit / unmarshal error; (produce) source kind x delivery script x writer kind x writer limit x ClosesStream x "
-         "marshal error; (rt) codec x abstract value x feeding pattern (whole / 1 / 7 byte chunks, zero-length reads, data+EOF) x "
+         "marshal error; (seq) a history of 2..3 (seeded: up to 12) ByteStreamConsumer calls and caller-side changes of stored []byte values, all "
+         "destinations re-read after every step; (rt) codec x abstract value (incl. typed JSON destinations with interface{} positions "
+         "holding numbers beyond float64) x feeding pattern (whole / 1 / 7 byte chunks, zero-length reads, data+EOF) x "
          "document cut + read error x failing writer. Exhaustive part: all configurations exported by TLC (GenCodecs: contents "
          "<=2/3 bytes, <=3/4 chunks; ~1.4 k JSON, ~600 YAML, ~450 XML values). Seeded part: 300/1500 random stream cases of 65 B "
          "to 1 MiB. Non-trivial: non-empty content or a fault; distinct by hash of the case.",
